@@ -40,13 +40,18 @@ def pkg_globals_atom(ix, mod):
     return atom
 
 
-def eval_pred(ix, mod, expr, binding, depth=0):
-    """evaluate a predicate expression with names bound per `binding` (name -> value); single-return package helpers are inlined"""
+def eval_pred(ix, mod, expr, binding, depth=0, fn=None):
+    """evaluate a predicate expression with names bound per `binding` (name -> value); single-return package helpers are inlined;
+    single-assignment locals of `fn` are looked through"""
     ga = pkg_globals_atom(ix, mod)
+    from ..py.guards import single_assignments
+    alias = single_assignments(fn) if fn is not None else {}
 
     def atom(node):
         if isinstance(node, ast.Name) and node.id in binding:
             return binding[node.id]
+        if isinstance(node, ast.Name) and node.id in alias and depth < 3:
+            return eval_pred(ix, mod, alias[node.id], binding, depth + 1, fn) if not isinstance(alias[node.id], ast.Constant) else alias[node.id].value
         for k, v in binding.items():
             if not k.isidentifier() and u(node) == k:
                 return v
@@ -105,7 +110,7 @@ def c15_1(rep, ix):
                     continue
                 binding = {var: s, "self.programtype['name']": "tdm" if tdm else "other", 'self.programtype["name"]': "tdm" if tdm else "other", "self._type['name']": "tdm" if tdm else "other"}
                 try:
-                    got = eval_pred(ix, "program", test_if.test, binding)
+                    got = eval_pred(ix, "program", test_if.test, binding, fn=fn)
                 except ModelError as e:
                     got = "raises " + str(e)
                 want = tdm and is_p(s)
@@ -171,17 +176,38 @@ def c15_2(rep, ix):
 
 def c15_3(rep, ix):
     R = "C15.3"
-    rep.rule(R, "every writer of the parameter table is one of the recognised forms (collect {name}, expand / replace a whole-array parameter, register a p-array, clear)", floor=5)
+    rep.rule(R, "every writer of the parameter table is one of the recognised kinds: append of a parameter-derived symbol or of a p-array name under the tdm/p-type guard, expansion of a whole-array "
+                "parameter (extend with its element symbols, remove of the array-level symbol), clear", floor=5)
+    from .c08 import in_param_array_branch, guarded_by_ptype
     E = common.eff(rep)
-    allowed = ("_PARAMS.append(p)", "_PARAMS.extend(final_value.flatten())", "_PARAMS.remove(parameters[0][1])", "_PARAMS.append(name)", "_PARAMS.clear()")
     n = 0
     for q, evs in sorted(E.events.items()):
         f = ix.funcs[q]
         for e in evs:
-            if "GLOBAL:auxiliary._PARAMS" in e.target.self_o and e.via is None:
-                n += 1
-                txt = " ".join(u(e.node).split())
-                rep.check(txt in allowed, R, ix.site(f, e.node), "`%s` is a recognised writer of the parameter table" % txt[:80],
-                          "unrecognised writer: p-array names (strings) and parameter symbols share this table; a rewrite can drop or duplicate either", key="%s|%s" % (q, txt[:80]))
+            if "GLOBAL:auxiliary._PARAMS" not in e.target.self_o or e.via is not None:
+                continue
+            n += 1
+            node = e.node
+            txt = " ".join(u(node).split())
+            ok = False
+            why = "unrecognised kind of write"
+            if isinstance(node, ast.Call) and isinstance(node.func, ast.Attribute) and u(node.func.value) == "_PARAMS":
+                st = stmt_of(f.node, node)
+                a = node.func.attr
+                arg = node.args[-1] if node.args else None
+                rt = resolved_text(f.node, arg, st) if arg is not None else ""
+                if a == "clear" and not node.args:
+                    ok = True
+                elif a == "append":
+                    ok = ".parameter().NAME().getText()" in rt or guarded_by_ptype(f.node, st)
+                    why = "appends `%s`" % rt[:60]
+                elif a == "extend":
+                    ok = in_param_array_branch(f.node, st) and arg is not None and "final_value" in u(arg)
+                    why = "extends with `%s` outside the whole-array expansion" % rt[:60]
+                elif a == "remove":
+                    ok = in_param_array_branch(f.node, st) and rt.startswith("parameters[0][1]") or u(arg) == "parameters[0][1]"
+                    why = "removes `%s`" % rt[:60]
+            rep.check(ok, R, ix.site(f, node), "`%s` is a recognised writer of the parameter table" % txt[:80],
+                      "%s: p-array names (strings) and parameter symbols share this table; a rewrite can drop or duplicate either" % why, key="%s|%s" % (q, txt[:80]))
     if n < 5:
         raise Inconclusive("fewer writers of _PARAMS found than confirmed by hand (%d)" % n)
